@@ -17,6 +17,7 @@
 (*                       rejected (400, nothing changes)                   *)
 (*   Query(loc, q)       one question; changes nothing.  Its admissible    *)
 (*                       outcomes are Out(cfg, sys, down, loc, q)          *)
+(*   TestUpstreams(r)    POST /control/test_upstream_dns; changes nothing  *)
 (*   UpstreamFails(u), UpstreamRecovers(u)     environment                 *)
 (*   Observe             prints the state with its verdict table and, for  *)
 (*                       down = {}, all its SetConfig edges: what TLC      *)
@@ -42,7 +43,8 @@ CONSTANTS
     Queries,       \* the questions of the verdict table
     Locs,          \* the client localities of the verdict table
     FailSet,       \* the upstreams that may stop responding
-    SysVals        \* the values of sys
+    SysVals,       \* the values of sys
+    TestReqs       \* the requests of POST /control/test_upstream_dns
 
 VARIABLES cfg, sys, down
 vars == <<cfg, sys, down>>
@@ -139,6 +141,14 @@ Query(loc, q) ==
     /\ Assert(Out(cfg, sys, down, loc, q) # {}, <<"no outcome", cfg, q>>)
     /\ UNCHANGED vars
 
+\* The test endpoint reports every named server exactly once, on one side.
+TestUpstreams(r) ==
+    /\ \E o \in {TestOut(r, down)} :
+          Assert(o.ok \cap o.notok = {} /\ o.notok \subseteq down /\ o.ok \cap down = {}
+                     /\ o.ok \cup o.notok = NamedAll(r.up) \cup NamedAll(r.fb) \cup NamedAll(r.ptr),
+                 <<"TestOK", r, down>>)
+    /\ UNCHANGED vars
+
 \* -------------------------------------------------------------- observation
 Table == {[loc |-> loc, q |-> q, alts |-> Out(cfg, sys, down, loc, q)] : loc \in Locs, q \in Queries}
 Edges == {[req |-> r, res |-> Results(cfg, sys, r)] : r \in ReqsIn(cfg)}
@@ -146,6 +156,8 @@ Edges == {[req |-> r, res |-> Results(cfg, sys, r)] : r \in ReqsIn(cfg)}
 StateRec ==
     [cfg |-> cfg, sys |-> sys, down |-> down, tab |-> Table,
      canfail |-> FailSet \ down,
+     \* (the outcome of a test does not depend on the configuration)
+     tests |-> IF cfg = Cfg0 THEN {[req |-> r, out |-> TestOut(r, down)] : r \in TestReqs} ELSE {},
      edges |-> IF down = {} THEN Edges ELSE {}]
 
 Observe == PrintT(<<"@@V", ToJson(StateRec)>>) /\ UNCHANGED vars
@@ -154,6 +166,7 @@ Next ==
     \/ \E r \in ReqsIn(cfg) : SetConfigAccepted(r) \/ SetConfigRejected(r)
     \/ \E loc \in Locs, q \in Queries : Query(loc, q)
     \/ \E u \in FailSet : UpstreamFails(u) \/ UpstreamRecovers(u)
+    \/ \E r \in TestReqs : TestUpstreams(r)
     \/ Observe
 
 Spec == Init /\ [][Next]_vars
@@ -276,6 +289,13 @@ PtrPtrLists ==
      List({"u4"}, {Sec(Pat(Rev192, FALSE), {"u3"})}), List({"u4"}, {Sec(Pat(Rev10, FALSE), {"u3"})})}
 PtrFbLists == {NoList, List({"u2"}, {})}
 PtrUpLists == {PtrUp}
+\* test_upstream_dns requests of this universe (u3 and u4 may be failing).
+PtrTestReqs ==
+    {Req({"up", "fb", "ptr"}, u, f, "-", p, FALSE) :
+        u \in {PtrUp, Bad(PtrUp, "scheme"), Bad(ValB, "nosection"), List({"u1", "u4"}, {Sec(Pat(Ex, TRUE), {"u3"})})},
+        f \in {NoList, List({"u2"}, {}), Bad(List({"u4"}, {}), "port")},
+        p \in {NoList, PtrU3, List({"u3", "u4"}, {}), Bad(PtrU3, "scheme")}}
+NoTests == {}
 PtrShapes == {{"up"}, {"fb"}, {"ptr"}, {"use"}, {"ptr", "use"}}
 PtrQueries == {QA(Other), PtrLease, PtrHosts, PtrUnk, PtrPub, LanKnown, LanUnk}
 =============================================================================
